@@ -257,6 +257,38 @@ func runSet[K keyC](c *enum.Ctx, tname string, model []kv, order []int, universe
 		if !checkDecoded(c, tname, &h2, model, "own") {
 			return
 		}
+		// (b') the dictionary object a cell is decoded into may have held another mapping before (a reused variable, a
+		// struct field): afterwards it represents the decoded cell's mapping and nothing else. The earlier occupants:
+		// the whole universe, and - for the empty dictionary as the later one - this very mapping.
+		{
+			var full tlb.HashmapE[K, tlb.Uint8]
+			for i, ub := range universe {
+				if k, err := keyFromBits[K](ub); err == nil {
+					full.Put(k, tlb.Uint8(200+i))
+				}
+			}
+			fenc := tb.NewCell()
+			if tlb.Marshal(fenc, full) == nil {
+				var dst tlb.HashmapE[K, tlb.Uint8]
+				if tlb.Unmarshal(fenc, &dst) == nil {
+					roots[0].ResetCounters()
+					if err := tlb.Unmarshal(roots[0], &dst); err != nil {
+						c.Fail("decode-into-used-dictionary-error:"+tname, "decoding %s into a dictionary value that held another mapping failed: %v", fmtKV(model), err)
+						return
+					}
+					if !checkDecoded(c, tname, &dst, model, "reused") {
+						return
+					}
+				}
+			}
+			empty := tb.NewCell()
+			_ = empty.WriteBit(false)
+			dst2 := h2
+			if err := tlb.Unmarshal(empty, &dst2); err != nil || len(dst2.Keys()) != 0 || len(dst2.Values()) != 0 {
+				c.Fail("decode-into-used-dictionary:"+tname, "the empty dictionary decoded into a value that held %s leaves %d keys (err %v)", fmtKV(model), len(dst2.Keys()), err)
+				return
+			}
+		}
 		// (d) lookups over the universe on both the built and the decoded dictionary
 		for _, ub := range universe {
 			k, err := keyFromBits[K](ub)
